@@ -143,7 +143,10 @@ static ASMJIT_INLINE Error ArenaVector_reserve_grow(ArenaVectorBase& self, Arena
     return capacity >= item_count ? Error::kOk : make_error(Error::kOutOfMemory);
   }
 
-  size_t expanded_byte_size = ArenaVector_expand_byte_size(size_t(byte_size));
+  // The expanded size must not describe more items than `_capacity` (uint32_t) can represent - `byte_size` itself
+  // always fits as `item_count` has been validated.
+  uint64_t max_byte_size = byte_size_from_item_count<uint64_t>(size_t(0xFFFFFFFFu), item_size);
+  size_t expanded_byte_size = size_t(Support::min<uint64_t>(ArenaVector_expand_byte_size(size_t(byte_size)), max_byte_size));
   return ArenaVector_reserve_with_byte_size(self, arena, expanded_byte_size, item_size);
 }
 
